@@ -20,20 +20,39 @@ def hx(b):
     return bytes(b).hex() or "-"
 
 
+def refused_key(k):
+    """A key the socket refuses whatever the engine id: an empty password (Master / Localized keys are padded to the digest
+    size by the Python User class, so this is the only refusal reachable through SnmpSession)."""
+    return bool(k) and k[1] == 0 and not k[2]
+
+
+def safe_keys(v3):
+    """scen.V3Keys of the scenario's user, or None when one of its keys is refused (nothing is then ever signed or encrypted)."""
+    if refused_key(v3.get("auth")) or refused_key(v3.get("priv")):
+        return None
+    return scen.V3Keys(v3, bytes.fromhex(v3["agent_engine_id"]))
+
+
 def material(v3):
     """Key material handed to the model: the keys localized (hashlib, RFC 3414 A.2) to the agent's engine id, passed as
     KeyType.Localized.  (Password -> key derivation in the model costs a 1 MiB Gallina digest per key and is the
-    subject of C12; here the state machine is what is being compared.)"""
+    subject of C12; here the state machine is what is being compared.)  A refused key (empty password) is handed over as
+    it is: the model refuses it before any digest is computed."""
     a, p = v3.get("auth"), v3.get("priv")
     if not a:
         return 0, b"", 0, b""
-    k = scen.V3Keys(v3, bytes.fromhex(v3["agent_engine_id"]))
-    acode = ALGC[a[0]] | 0x80
+    eng = bytes.fromhex(v3["agent_engine_id"])
+    if refused_key(a):
+        acode, akey = ALGC[a[0]], b""
+    else:
+        acode = ALGC[a[0]] | 0x80
+        akey = scen.localized_key(a[0], a[1], scen.pad_key(bytes.fromhex(a[2]), KS[a[0]]) if a[1] in (1, 2) else bytes.fromhex(a[2]), eng)
     if not p:
-        return acode, k.auth_key, 0, b""
-    full = scen.localized_key(a[0], p[1], scen.pad_key(bytes.fromhex(p[2]), KS[a[0]]) if p[1] in (1, 2) else bytes.fromhex(p[2]),
-                              bytes.fromhex(v3["agent_engine_id"]))
-    return acode, k.auth_key, PRIVC[p[0]] | 0x80, full
+        return acode, akey, 0, b""
+    if refused_key(p):
+        return acode, akey, PRIVC[p[0]], b""
+    full = scen.localized_key(a[0], p[1], scen.pad_key(bytes.fromhex(p[2]), KS[a[0]]) if p[1] in (1, 2) else bytes.fromhex(p[2]), eng)
+    return acode, akey, PRIVC[p[0]] | 0x80, full
 
 
 class Replayer:
@@ -82,8 +101,8 @@ def model_user(v3):
     acode, akey, pcode, pkey = material(v3)
     a, p = v3.get("auth"), v3.get("priv")
     return "%s:%s:%s" % (hx(v3["user"].encode()),
-                         "%d:2:%s" % (ALGC[a[0]], hx(akey)) if a else "0:0:-",
-                         "%d:2:%s" % (PRIVC[p[0]], hx(pkey)) if p else "0:0:-")
+                         "%d:%d:%s" % (ALGC[a[0]], 0 if refused_key(a) else 2, hx(akey)) if a else "0:0:-",
+                         "%d:%d:%s" % (PRIVC[p[0]], 0 if refused_key(p) else 2, hx(pkey)) if p else "0:0:-")
 
 
 def replay(rp, sc, rec):
@@ -95,7 +114,7 @@ def replay(rp, sc, rec):
     # all requests of the scenario in order, for the salt look-ahead
     flat = [(si, xi, x) for si, st in enumerate(rec["steps"]) for xi, x in enumerate(st.get("exchanges", []))]
     parsed = {}
-    keys = scen.V3Keys(v3, bytes.fromhex(v3["agent_engine_id"]))
+    keys = safe_keys(v3)
     for si, xi, x in flat:
         parsed[(si, xi)] = scen.summarise(scen.parse_request(bytes.fromhex(x["request"]), keys, rp.m))
 
